@@ -131,6 +131,12 @@ func c02Expected(p c2Plan, noPub bool, mp int) c2Expect {
 
 var errC2Handler = errors.New("scripted handler error")
 
+// c2Published collects the publish calls that carried outputs of one consumed message.
+type c2Published struct {
+	calls  []*PubCall
+	failed bool // the scripted publish fault was applied (to the first call)
+}
+
 func c02Body(r *Run) {
 	t := r.T
 	cell := t.Int(hbCount * c2PubKinds * 2 * mpCount)
@@ -240,7 +246,8 @@ func c02Body(r *Run) {
 		}
 		h.pub.Decide = func(c *PubCall) PubFault {
 			if len(c.Msgs) == 0 {
-				r.Fail("C02.R5", "Publish was called with no messages", "handler %s", h.name)
+				// publishing nothing is not forbidden by the property (and decides nothing)
+				r.Probe("empty-publish-call")
 				return PubOK
 			}
 			src := c.Msgs[0].Metadata.Get("src")
@@ -257,11 +264,23 @@ func c02Body(r *Run) {
 					if hbFails(p.hb) {
 						r.Fail("C02.R4", "messages returned together with an error were published", "handler %s %s behaviour %s", h.name, src, hbNames[p.hb])
 					}
-					if d.Tag != nil {
-						r.Fail("C02.R4", "outputs of one consumed message were published in more than one call", "handler %s %s", h.name, src)
+					// the outputs of one consumed message may be handed over in one call or one by one; the scripted
+					// fault hits the first call
+					pc, _ := d.Tag.(*c2Published)
+					if pc == nil {
+						pc = &c2Published{}
+						d.Tag = pc
 					}
-					d.Tag = c
-					return p.pb
+					pc.calls = append(pc.calls, c)
+					if pc.failed {
+						r.Probe("publish-after-failed-publish")
+						return PubOK
+					}
+					if len(pc.calls) == 1 {
+						pc.failed = p.pb != PubOK
+						return p.pb
+					}
+					return PubOK
 				}
 			}
 			r.Fail("C02.R4", "a published message does not stem from any delivery of this handler", "handler %s src=%q", h.name, src)
@@ -326,14 +345,26 @@ func c02Body(r *Run) {
 					}
 					r.Fail("C02.R2", sig, "%s: acked=%v expected %v", what, d.Acked(), e.acked)
 				}
-				calls := 0
-				var n int
-				if c, ok := d.Tag.(*PubCall); ok && c != nil {
-					calls = 1
-					n = len(c.Msgs)
+				calls, n := 0, 0
+				failed := false
+				if pc, ok := d.Tag.(*c2Published); ok && pc != nil {
+					calls = len(pc.calls)
+					failed = pc.failed
+					for _, c := range pc.calls {
+						n += len(c.Msgs)
+					}
 				}
-				if calls != e.calls || n != e.published {
-					r.Fail("C02.R4", "wrong publish calls for a consumed message", "%s: %d call(s) with %d messages, expected %d call(s) with %d", what, calls, n, e.calls, e.published)
+				selfNacked := p.hb == hbNackOK
+				switch {
+				case e.calls == 0 && calls != 0:
+					r.Fail("C02.R4", "wrong publish calls for a consumed message", "%s: %d call(s) with %d messages, expected none", what, calls, n)
+				case e.calls > 0 && calls == 0 && !selfNacked:
+					// (after the handler's own Nack the outputs may or may not be published: the Nack stands either way)
+					r.Fail("C02.R4", "wrong publish calls for a consumed message", "%s: no publish call, expected %d messages", what, e.published)
+				case e.calls > 0 && calls > 0 && !failed && n != e.published:
+					r.Fail("C02.R4", "wrong publish calls for a consumed message", "%s: %d call(s) with %d messages, expected %d messages", what, calls, n, e.published)
+				case e.calls > 0 && calls > 0 && failed && n > e.published:
+					r.Fail("C02.R4", "wrong publish calls for a consumed message", "%s: %d call(s) with %d messages, expected at most %d", what, calls, n, e.published)
 				}
 			}
 			if h.noPub && len(h.pub.Calls) > 0 {
